@@ -256,6 +256,7 @@ static void enum_rec (struct enumst *e, int kind, int lvl, size_t rbsize, uint8_
                       const uint8_t *suf, size_t suflen)
 {
   size_t a;
+  if (mlen <= 3) lp_watchdog_kick ();  /* one script line enumerates up to 16^7 cases: still making progress */
   memcpy (work + prelen + mlen, suf, suflen);
   if (0 == kind) enum_head_case (e, rbsize, work, prelen + mlen + suflen, work + prelen, mlen);
   else
